@@ -150,6 +150,8 @@ type View struct {
 	BeforeRead func(path string)
 	// FailSave, if set, may return an error for a save: the file does not become durable (injected storage fault).
 	FailSave func(path string) error
+	// FailRead, if set, may return an error for a ReadAt: nothing is read (injected storage fault).
+	FailRead func(path string) error
 	// Probe, if set, is called at every New / Open / File.URI through this view: a yield point inside code that
 	// touches storage objects without reading or writing (e.g. under a lock).
 	Probe func(op, path string)
@@ -212,6 +214,11 @@ type file struct {
 func (f *file) ReadAt(p []byte, off int64) (int, error) {
 	if br := f.v.BeforeRead; br != nil {
 		br(f.path)
+	}
+	if fr := f.v.FailRead; fr != nil {
+		if err := fr(f.path); err != nil {
+			return 0, err
+		}
 	}
 	f.mu.Lock()
 	defer f.mu.Unlock()
